@@ -37,6 +37,7 @@ def gen_cfg(rng, tier: str, big: bool = False, kind: str | None = None) -> dict:
                    rgd=(kind == "hosted" and rng.random() < 0.5), embed_desc=rng.random() < 0.8,
                    desc_sectors=rng.choice([20, 20, 2, 40]), level=rng.choice([1, 6, 9]),
                    pad_overhead=rng.choice([0, 0, 1, 7, 128]), sparse_gts=(kind == "stream" or rng.random() < 0.3),
+                   desc_late=(kind == "hosted" and rng.random() < 0.3),
                    dirty=rng.random() < 0.1)
     elif kind == "cowd":
         grain = rng.choice([1, 1, 8, 128])
@@ -130,7 +131,8 @@ def _render_kdmv(cfg, layer, view, name, parent_cid, parent_hint, extent_name) -
         desc = text.encode()
         desc_off = 1
         desc_size = max(cfg["desc_sectors"], (len(desc) + 511) // 512)
-    pos = 1 + desc_size  # in sectors
+    late = bool(desc and cfg.get("desc_late") and not stream)
+    pos = 1 + (0 if late else desc_size)  # in sectors
     gts_needed = sorted({u // gtes for u in need} | {u // gtes for u in zero_units})
     if not cfg["sparse_gts"]:
         gts_needed = list(range(ngt))
@@ -151,6 +153,9 @@ def _render_kdmv(cfg, layer, view, name, parent_cid, parent_hint, extent_name) -
         for t in gts_needed:
             gt_pos[t] = pos
             pos += gt_sectors
+        if late:  # the embedded descriptor may sit anywhere in the metadata area: here, behind the tables
+            desc_off = pos
+            pos += desc_size
         overhead = align_up(pos, grain) + cfg["pad_overhead"]
         slots, nslots = assign_slots(need, cfg["alloc"], cfg["alloc_seed"])
         place = {u: overhead + slots[u] * grain for u in need}
